@@ -41,6 +41,9 @@ CONSTANTS
   FailSaves,   \* BOOLEAN: the metadata store may reject a save
   Focus,       \* BOOLEAN: while a session is being opened or closed nothing else is scheduled
   Record,      \* BOOLEAN: hist carries predictions (events, projected state) besides the labels
+  RM,          \* BOOLEAN: rollback mitigation gates deliveries on the persisted seqno of every copy of the vBucket
+  Slots,       \* number of copies (active + replicas) listed in the cluster map
+  RmUuids,     \* vbUUIDs a copy may report
   Scrapes,     \* BOOLEAN: the metrics endpoint is scraped
   Marking,     \* BOOLEAN: record in marks the interesting situations a behaviour goes through (bin/mkwitness)
   WindAt,      \* the wind-down may start once the schedule has this many steps (0: any time)
@@ -61,6 +64,8 @@ VARIABLES
   tokC, tokE, waits, wpark, timers, cur, rlock, slock, cgen,
   \* ---- threads
   mpc, dcwc, opener, opc, opened, live, foleft, lpart, clo, spc, sv, rpc, dpc, reop,
+  thr, rtab, dwait, rmon,   \* rollback mitigation: threshold per vb (observer.persistSeqNo), table of copies per vb,
+                            \* the event a dispatch goroutine is waiting with, gate in force
   scr, sinfo,  \* the scrape thread ("idle" | "wait": inside Collect, parked in GetVBucketSeqNos); membership read by the last Open
   \* ---- wind-down: the environment stops producing work, pending work completes, a last save flushes
   wind,
@@ -73,7 +78,8 @@ envVars  == <<up, slog, wire, store, info, cnt, fo>>
 obsvVars == <<osnap, ouuid, ocatch, oclosed, oendclosed, ocnt>>
 strVars  == <<offs, dirty, flag, rng, open, obsNil, active, balancing, cwc, finClose, finEnd, rebalances, stopped, ctxs>>
 synVars  == <<tokC, tokE, waits, wpark, timers, cur, rlock, slock, cgen>>
-thrVars  == <<mpc, dcwc, opener, opc, opened, live, foleft, lpart, clo, spc, sv, rpc, dpc, reop, scr, sinfo, wind>>
+rmVars   == <<thr, rtab, dwait, rmon>>
+thrVars  == <<mpc, dcwc, opener, opc, opened, live, foleft, lpart, clo, spc, sv, rpc, dpc, reop, scr, sinfo, wind, rmVars>>
 vars     == <<envVars, obsvVars, strVars, synVars, thrVars, marks, emitv, obs, hist>>
 view     == <<envVars, obsvVars, strVars, synVars, thrVars, marks, obs>>
 
@@ -137,6 +143,10 @@ GapReopen == "CloseDuringReopen" \in Gaps
 \* model lets a parked wait goroutine finish before the re-open timer fires
 GapLateWait == "LateWait" \in Gaps
 -----------------------------------------------------------------------------
+NoSlot == [uuid |-> 0, seq |-> 0, absent |-> FALSE]
+NoEvent == Ev("none", 0, 0, 0, "", FALSE)
+GateSeq(x) == IF x.k = "mark" THEN x.s ELSE x.q
+GateReady == \E v \in VB : dwait[v] # NoEvent /\ (GateSeq(dwait[v]) <= thr[v] \/ oclosed[v])
 SaverInit == [dump |-> [v \in VB |-> NoOff], ddirty |-> {}, wr |-> {}, gen |-> 0,
               dlive |-> TRUE, dsnapm |-> {}, olive |-> TRUE, osnapm |-> [v \in VB |-> NoOff]]
 CntInit == [crash |-> 0, saves |-> 0, acks |-> 0, notify |-> 0, ends |-> 0, fail |-> 0]
@@ -163,6 +173,7 @@ Init ==
   /\ tokC = 0 /\ tokE = 0 /\ waits = 0 /\ wpark = <<>> /\ timers = <<>> /\ cur = 0
   /\ rlock = FALSE /\ slock = {} /\ cgen = 0
   /\ mpc = "off" /\ dcwc = FALSE /\ opener = "none" /\ opc = "none" /\ opened = {} /\ live = {} /\ foleft = 0 /\ lpart = FALSE /\ scr = "idle" /\ sinfo = Info0
+  /\ thr = [v \in VB |-> 0] /\ rtab = [v \in VB |-> [i \in 1..Slots |-> NoSlot]] /\ dwait = [v \in VB |-> NoEvent] /\ rmon = FALSE
   /\ clo = NoClose
   /\ spc = [t \in SaveThreads |-> "idle"] /\ sv = [t \in SaveThreads |-> SaverInit]
   /\ rpc = [t \in RbThreads |-> "idle"] /\ dpc = [v \in VB |-> "idle"] /\ reop = {}
@@ -180,7 +191,7 @@ FocusBusy == Focus /\ (opc # "none" \/ clo.on)
 Prompt0 == "LateWait" \in Gaps \/ wpark = <<>>
 \* a thread blocked in saveLock.Lock() takes the lock the moment it is released, before anything else happens
 LockHandoff == \E t \in SaveThreads : spc[t] = "blocked" /\ sv[t].gen \notin slock
-Prompt == Prompt0 /\ ~LockHandoff
+Prompt == Prompt0 /\ ~LockHandoff /\ ~GateReady
 Busy == FocusBusy \/ ~Prompt
 
 Die(es) == /\ up' = FALSE /\ mpc' = "off" /\ Emit(es \o <<[ev |-> "Died"]>>)
@@ -229,6 +240,7 @@ Boot ==
   /\ foleft' = 0 /\ lpart' = FALSE /\ clo' = NoClose /\ live' = {}
   /\ spc' = [t \in SaveThreads |-> "idle"] /\ sv' = [t \in SaveThreads |-> SaverInit]
   /\ rpc' = [t \in RbThreads |-> "idle"] /\ dpc' = [v \in VB |-> "idle"] /\ reop' = {} /\ scr' = "idle"
+  /\ thr' = [v \in VB |-> 0] /\ rtab' = [v \in VB |-> [i \in 1..Slots |-> NoSlot]] /\ dwait' = [v \in VB |-> NoEvent] /\ rmon' = FALSE
   /\ wire' = [v \in VB |-> <<>>]
   /\ Emit(<<[ev |-> "Boot", auto |-> AutoCkpt, finite |-> Finite, member |-> info[1], total |-> info[2]]>> \o OpenBeginEvs)
   /\ UNCHANGED <<slog, fo, store, info, cnt>>
@@ -240,7 +252,7 @@ LoadRet(ok, part) ==
   /\ (~ok => cnt.fail < MaxFail /\ EnvOK)
   /\ (part => ok /\ MaxFail > 0 /\ EnvOK)      \* a file-like backend: returns only the vBuckets it has a document for
   /\ lpart' = part
-  /\ UNCHANGED <<slog, fo, wire, store, info, obsvVars, strVars, synVars, dcwc, opener, opened, live, foleft, clo, spc, sv, rpc, dpc, reop, scr, sinfo>>
+  /\ UNCHANGED <<slog, fo, wire, store, info, obsvVars, strVars, synVars, dcwc, opener, opened, live, foleft, clo, spc, sv, rpc, dpc, reop, rmVars, scr, sinfo>>
   /\ IF ok THEN /\ opc' = "seqnos" /\ Emit(<<[ev |-> "SeqNosReq"]>>) /\ UNCHANGED <<up, mpc, cnt>>
      ELSE /\ opc' = "none" /\ cnt' = [cnt EXCEPT !.fail = @ + 1] /\ Die(<<[ev |-> "Fail", what |-> "Load"]>>)
 
@@ -273,7 +285,7 @@ SeqNosRet(ok) ==
   /\ up /\ opc = "seqnos" /\ Prompt
   /\ (~ok => cnt.fail < MaxFail /\ EnvOK)
   /\ UNCHANGED <<slog, fo, wire, store, info, rng, open, active, balancing, cwc, finClose, finEnd, rebalances, stopped,
-                 ctxs, synVars, dcwc, opener, opened, clo, spc, rpc, reop, scr, sinfo>>
+                 ctxs, synVars, dcwc, opener, opened, clo, spc, rpc, reop, rmVars, scr, sinfo>>
   /\ IF ~ok THEN /\ opc' = "none" /\ cnt' = [cnt EXCEPT !.fail = @ + 1] /\ Die(<<SeqNosEv(FALSE)>>)
                  /\ UNCHANGED <<obsvVars, offs, dirty, flag, obsNil, foleft, lpart, live, sv, dpc>>
      ELSE IF Ahead \/ PartialLoad                      \* checkpoint beyond the high seqno / missing checkpoint entry: panic
@@ -293,7 +305,7 @@ FoLogRet(ok) ==
   /\ up /\ opc = "folog" /\ foleft > 0 /\ Prompt
   /\ (~ok => cnt.fail < MaxFail /\ EnvOK)
   /\ UNCHANGED <<slog, fo, wire, store, info, rng, open, active, balancing, cwc, finClose, finEnd,
-                 rebalances, stopped, ctxs, synVars, dcwc, opener, opened, clo, spc, rpc, reop, scr, sinfo>>
+                 rebalances, stopped, ctxs, synVars, dcwc, opener, opened, clo, spc, rpc, reop, rmVars, scr, sinfo>>
   /\ IF ~ok THEN /\ opc' = "none" /\ cnt' = [cnt EXCEPT !.fail = @ + 1] /\ Die(<<[ev |-> "Fail", what |-> "FoLog"]>>)
                  /\ UNCHANGED <<obsvVars, obsNil, foleft, lpart, live, offs, dirty, flag, sv, dpc>>
      ELSE /\ UNCHANGED <<up, mpc, cnt>>
@@ -329,7 +341,7 @@ OpenRet(v, res, r) ==
   /\ (res = "rb" => Rollbacks /\ r <= offs[v].seq /\ offs[v].seq > 0 /\ EnvOK)
   /\ (res # "rb" => r = 0)
   /\ UNCHANGED <<slog, fo, store, info, osnap, oclosed, oendclosed, ocnt, offs, dirty, flag, rng, obsNil, active, cwc,
-                 finClose, finEnd, stopped, ctxs, timers, cur, slock, cgen, dcwc, foleft, lpart, clo, spc, sv, rpc, dpc, reop, scr, sinfo>>
+                 finClose, finEnd, stopped, ctxs, timers, cur, slock, cgen, dcwc, foleft, lpart, clo, spc, sv, rpc, dpc, reop, rmVars, scr, sinfo>>
   /\ IF res = "err"                                   \* openAllStreams: panic in the goroutine
      THEN /\ cnt' = [cnt EXCEPT !.fail = @ + 1] /\ opc' = "none"
           /\ Die(<<OpenRetEv(v, FALSE, FALSE, 0)>>)
@@ -373,63 +385,121 @@ InSnap(v, q) == osnap[v] # NoSnap /\ osnap[v][1] <= q /\ q <= osnap[v][2]
 \* candidates for the next event on the stream of v
 NextEvents(v) == IF wire[v] # <<>> THEN {Head(wire[v])} ELSE Gen(v)
 
-Push(v, x, hold) ==
-  /\ UNCHANGED wind
-  /\ up /\ ~Busy /\ EnvOK /\ v \in live /\ dpc[v] = "idle" /\ v \notin reop
-  /\ x \in NextEvents(v)
-  /\ (hold => Hold)
-  /\ UNCHANGED <<fo, store, info, cnt, ouuid, oclosed, oendclosed, rng, open, obsNil, active, balancing, cwc, finClose,
-                 finEnd, rebalances, stopped, synVars, dcwc, opener, opc, opened, live, foleft, lpart, clo, spc, sv, rpc, reop, scr, sinfo>>
-  /\ IF wire[v] # <<>> THEN wire' = [wire EXCEPT ![v] = Tail(@)] /\ UNCHANGED slog
-     ELSE slog' = [slog EXCEPT ![v] = Append(@, x)] /\ UNCHANGED wire
+\* the part of an observer callback after the rollback-mitigation gate (sent: the Sent event was already emitted)
+SentOf(v, x, sent) == IF sent THEN <<>> ELSE <<SentEv(v, x)>>
+PushBody(v, x, hold, sent) ==
   /\ LET f == Off(ouuid[v], x.q, osnap[v][1], osnap[v][2]) IN
      CASE x.k = "mark" ->                       \* SnapshotMarker l.157-170
             /\ osnap' = [osnap EXCEPT ![v] = <<x.s, x.e>>]
             /\ UNCHANGED <<up, mpc, ocatch, ocnt, offs, dirty, flag, ctxs, dpc>>
-            /\ Emit(<<SentEv(v, x), PushedEv(v)>>)
+            /\ Emit(SentOf(v, x, sent) \o <<PushedEv(v)>>)
        [] x.k = "adv" ->                        \* SeqNoAdvanced l.414-437 (control: no catch-up)
             LET g == Off(ouuid[v], x.q, x.q, x.q) IN
             /\ osnap' = [osnap EXCEPT ![v] = <<x.q, x.q>>]
             /\ UNCHANGED <<up, mpc, ocatch, ocnt, ctxs, dpc>>
-            /\ IF oclosed[v] THEN UNCHANGED <<offs, dirty, flag>> /\ Emit(<<SentEv(v, x), PushedEv(v)>>)
-               ELSE SetOffset(v, g, TRUE) /\ Emit(<<SentEv(v, x)>> \o TrackEvs(v, g) \o <<PushedEv(v)>>)
+            /\ IF oclosed[v] THEN UNCHANGED <<offs, dirty, flag>> /\ Emit(SentOf(v, x, sent) \o <<PushedEv(v)>>)
+               ELSE SetOffset(v, g, TRUE) /\ Emit(SentOf(v, x, sent) \o TrackEvs(v, g) \o <<PushedEv(v)>>)
        [] x.k = "sys" ->                        \* CreateCollection ... l.284-406
             LET c == Catch(v, x.q) IN
             /\ ocatch' = [ocatch EXCEPT ![v] = c[2]]
             /\ UNCHANGED <<osnap, ocnt, ctxs, dpc>>
             /\ IF c[1] THEN /\ UNCHANGED <<up, mpc, offs, dirty, flag>>
-                            /\ Emit(<<SentEv(v, x), PushedEv(v)>>)
-               ELSE IF ~InSnap(v, x.q) THEN UNCHANGED <<offs, dirty, flag>> /\ Die(<<SentEv(v, x)>>)
+                            /\ Emit(SentOf(v, x, sent) \o <<PushedEv(v)>>)
+               ELSE IF ~InSnap(v, x.q) THEN UNCHANGED <<offs, dirty, flag>> /\ Die(SentOf(v, x, sent))
                ELSE IF oclosed[v] THEN /\ UNCHANGED <<up, mpc, offs, dirty, flag>>
-                                       /\ Emit(<<SentEv(v, x), PushedEv(v)>>)
+                                       /\ Emit(SentOf(v, x, sent) \o <<PushedEv(v)>>)
                ELSE /\ SetOffset(v, f, TRUE)
                     /\ UNCHANGED <<up, mpc>>
-                    /\ Emit(<<SentEv(v, x)>> \o TrackEvs(v, f) \o <<PushedEv(v)>>)
+                    /\ Emit(SentOf(v, x, sent) \o TrackEvs(v, f) \o <<PushedEv(v)>>)
        [] OTHER ->                              \* Mutation / Deletion / Expiration l.185-270
             LET c == Catch(v, x.q) IN
             /\ ocatch' = [ocatch EXCEPT ![v] = c[2]]
             /\ UNCHANGED osnap
             /\ IF c[1] \/ x.old
                THEN /\ UNCHANGED <<up, mpc, offs, dirty, flag, ocnt, ctxs, dpc>>
-                    /\ Emit(<<SentEv(v, x), PushedEv(v)>>)
-               ELSE IF ~InSnap(v, x.q) THEN UNCHANGED <<offs, dirty, flag, ocnt, ctxs, dpc>> /\ Die(<<SentEv(v, x)>>)
+                    /\ Emit(SentOf(v, x, sent) \o <<PushedEv(v)>>)
+               ELSE IF ~InSnap(v, x.q) THEN UNCHANGED <<offs, dirty, flag, ocnt, ctxs, dpc>> /\ Die(SentOf(v, x, sent))
                ELSE IF oclosed[v]                      \* sendOrSkip drops it; the counter still moves (l.210)
                THEN /\ ocnt' = [ocnt EXCEPT ![v] = Bump(@, x.k)]
                     /\ UNCHANGED <<up, mpc, offs, dirty, flag, ctxs, dpc>>
-                    /\ Emit(<<SentEv(v, x), PushedEv(v)>>)
+                    /\ Emit(SentOf(v, x, sent) \o <<PushedEv(v)>>)
                ELSE IF Reserved(x)                     \* stream.go waitAndForward l.118-121
                THEN /\ ocnt' = [ocnt EXCEPT ![v] = Bump(@, x.k)]
                     /\ SetOffset(v, f, FALSE)
                     /\ UNCHANGED <<up, mpc, ctxs, dpc>>
-                    /\ Emit(<<SentEv(v, x)>> \o TrackEvs(v, f) \o <<PushedEv(v)>>)
+                    /\ Emit(SentOf(v, x, sent) \o TrackEvs(v, f) \o <<PushedEv(v)>>)
                ELSE /\ ctxs' = Append(ctxs, [vb |-> v, off |-> f, gen |-> cgen])
                     /\ UNCHANGED <<up, mpc, offs, dirty, flag>>
                     /\ LET c0 == [ev |-> "Consume", vb |-> v, k |-> x.k, q |-> x.q, key |-> x.key, off |-> f] IN
                        IF hold   \* the consumer blocks inside ConsumeEvent: counter not yet bumped
                        THEN /\ dpc' = [dpc EXCEPT ![v] = x.k] /\ UNCHANGED ocnt
-                            /\ Emit(<<SentEv(v, x), c0>>)
+                            /\ Emit(SentOf(v, x, sent) \o <<c0>>)
                        ELSE /\ UNCHANGED dpc /\ ocnt' = [ocnt EXCEPT ![v] = Bump(@, x.k)]
-                            /\ Emit(<<SentEv(v, x), c0, PushedEv(v)>>)
+                            /\ Emit(SentOf(v, x, sent) \o <<c0, PushedEv(v)>>)
+
+\* waitRollbackMitigation (observer.go l.104-120): every callback first waits until the threshold covers its seqno
+\* (a marker: its start seqno) or the observer is closed
+Push(v, x, hold) ==
+  /\ UNCHANGED wind
+  /\ up /\ ~Busy /\ EnvOK /\ v \in live /\ dpc[v] = "idle" /\ v \notin reop /\ dwait[v] = NoEvent
+  /\ x \in NextEvents(v)
+  /\ (hold => Hold)
+  /\ UNCHANGED <<fo, store, info, cnt, ouuid, oclosed, oendclosed, rng, open, obsNil, active, balancing, cwc, finClose,
+                 finEnd, rebalances, stopped, synVars, dcwc, opener, opc, opened, live, foleft, lpart, clo, spc, sv, rpc, reop, thr, rtab, rmon, scr, sinfo>>
+  /\ IF wire[v] # <<>> THEN wire' = [wire EXCEPT ![v] = Tail(@)] /\ UNCHANGED slog
+     ELSE slog' = [slog EXCEPT ![v] = Append(@, x)] /\ UNCHANGED wire
+  /\ IF RM /\ rmon /\ GateSeq(x) > thr[v] /\ ~oclosed[v]
+     THEN /\ dwait' = [dwait EXCEPT ![v] = x]
+          /\ Emit(<<SentEv(v, x)>>)
+          /\ UNCHANGED <<up, mpc, osnap, ocatch, ocnt, offs, dirty, flag, ctxs, dpc>>
+     ELSE /\ PushBody(v, x, hold, FALSE) /\ UNCHANGED dwait
+
+\* ... and goes on by itself once it does (not a step of the schedule)
+GateOpen(v) ==
+  /\ UNCHANGED wind
+  /\ up /\ dwait[v] # NoEvent /\ (GateSeq(dwait[v]) <= thr[v] \/ oclosed[v])
+  /\ dwait' = [dwait EXCEPT ![v] = NoEvent]
+  /\ PushBody(v, dwait[v], FALSE, TRUE)
+  /\ UNCHANGED <<slog, fo, wire, store, info, cnt, ouuid, oclosed, oendclosed, rng, open, obsNil, active, balancing, cwc, finClose,
+                 finEnd, rebalances, stopped, synVars, dcwc, opener, opc, opened, live, foleft, lpart, clo, spc, sv, rpc, reop, thr, rtab, rmon, scr, sinfo>>
+
+\* transcription of rollbackMitigation.getMinSeqNo (rollback_mitigation.go l.133-169)
+RECURSIVE FirstPresent(_, _)
+FirstPresent(tab, i) == IF i > Len(tab) THEN 0 ELSE IF ~tab[i].absent THEN i ELSE FirstPresent(tab, i + 1)
+RECURSIVE MinFrom(_, _, _, _)
+MinFrom(tab, i, uuid, m) ==
+  IF i > Len(tab) THEN m
+  ELSE IF tab[i].absent THEN MinFrom(tab, i + 1, uuid, m)
+  ELSE IF tab[i].uuid # uuid THEN 0
+  ELSE MinFrom(tab, i + 1, uuid, IF m > tab[i].seq THEN tab[i].seq ELSE m)
+MinSeq(tab) == LET f == FirstPresent(tab, 1) IN IF f = 0 THEN 0 ELSE MinFrom(tab, f + 1, tab[f].uuid, tab[f].seq)
+
+\* a copy of v answers OBSERVE_SEQNO (rollback_mitigation.go observe l.304-353): the table is updated when the answer
+\* differs, the new minimum is dispatched to the observer (SetPersistSeqNo: 0 ignored, only increases)
+Report(v, i, u, q) ==
+  /\ UNCHANGED wind
+  /\ up /\ RM /\ rmon /\ ~Busy /\ EnvOK /\ i \in 1..Slots /\ ~rtab[v][i].absent /\ cnt.acks + cnt.saves + cnt.notify + cnt.ends < 99
+  /\ (rtab[v][i].uuid # u \/ rtab[v][i].seq # q)          \* (an identical answer changes nothing)
+  /\ rtab' = [rtab EXCEPT ![v][i] = [uuid |-> u, seq |-> q, absent |-> FALSE]]
+  /\ LET m == MinSeq(rtab'[v]) IN thr' = [thr EXCEPT ![v] = IF m # 0 /\ m > @ THEN m ELSE @]
+  /\ Emit(<<[ev |-> "Report", vb |-> v, slot |-> i, uuid |-> u, seq |-> q]>>)
+  /\ UNCHANGED <<envVars, obsvVars, strVars, synVars, mpc, dcwc, opener, opc, opened, live, foleft, lpart, clo, spc, sv, rpc, dpc, reop, dwait, rmon, scr, sinfo>>
+
+\* the cluster map stops listing copy i of v (markAbsentInstances)
+Absent(v, i) ==
+  /\ UNCHANGED wind
+  /\ up /\ RM /\ rmon /\ ~Busy /\ EnvOK /\ i \in 2..Slots /\ ~rtab[v][i].absent
+  /\ rtab' = [rtab EXCEPT ![v][i].absent = TRUE]
+  /\ Emit(<<[ev |-> "Absent", vb |-> v, slot |-> i]>>)
+  /\ UNCHANGED <<envVars, obsvVars, strVars, synVars, mpc, dcwc, opener, opc, opened, live, foleft, lpart, clo, spc, sv, rpc, dpc, reop, thr, dwait, rmon, scr, sinfo>>
+
+\* the harness switches the gate on once the stream is open and off before it asks for Close (see DESIGN: on rig A the
+\* real rollbackMitigation object cannot be built; the observers' gate, getMinSeqNo and SetPersistSeqNo are real)
+RmSwitch(on) ==
+  /\ UNCHANGED wind
+  /\ up /\ RM /\ ~Busy /\ mpc = "running" /\ rmon # on /\ (on => open /\ EnvOK)
+  /\ rmon' = on /\ Emit(<<[ev |-> "RmSwitch", on |-> on, slots |-> Slots]>>)
+  /\ UNCHANGED <<envVars, obsvVars, strVars, synVars, mpc, dcwc, opener, opc, opened, live, foleft, lpart, clo, spc, sv, rpc, dpc, reop, thr, rtab, dwait, scr, sinfo>>
 
 \* ConsumeEvent returns
 ConsRet(v) ==
@@ -439,7 +509,7 @@ ConsRet(v) ==
   /\ ocnt' = [ocnt EXCEPT ![v] = IF dpc[v] = "stale" THEN @ ELSE Bump(@, dpc[v])]
   /\ Emit(<<PushedEv(v)>>)
   /\ UNCHANGED <<envVars, osnap, ouuid, ocatch, oclosed, oendclosed, strVars, synVars, mpc, dcwc, opener, opc, opened,
-                 live, foleft, lpart, clo, spc, sv, rpc, reop, scr, sinfo>>
+                 live, foleft, lpart, clo, spc, sv, rpc, reop, rmVars, scr, sinfo>>
 
 \* the consumer acknowledges the i-th context it was handed (stream.go l.128-131)
 Ack(i) ==
@@ -483,7 +553,7 @@ SaveStart(t) ==
   /\ SaveEnter(t, cgen)
   /\ Emit(SaveEnterEvs(t))
   /\ UNCHANGED <<up, slog, fo, wire, store, info, obsvVars, strVars, synVars, mpc, dcwc, opener, opc, opened, live, foleft, lpart,
-                 clo, rpc, dpc, reop, scr, sinfo>>
+                 clo, rpc, dpc, reop, rmVars, scr, sinfo>>
 
 SaveLockBody(t) ==
   IF "F1" \in Bugs
@@ -509,7 +579,7 @@ SaveTake(t) ==
         /\ Emit(<<[ev |-> "SaveBegin", t |-> t, dump |-> om, dirty |-> SortedSeq(dm)]>>)
   /\ flag' = FALSE /\ dirty' = {}
   /\ UNCHANGED <<envVars, obsvVars, offs, rng, open, obsNil, active, balancing, cwc, finClose, finEnd, rebalances, stopped, ctxs,
-                 synVars, mpc, dcwc, opener, opc, opened, live, foleft, lpart, clo, rpc, dpc, reop, scr, sinfo>>
+                 synVars, mpc, dcwc, opener, opc, opened, live, foleft, lpart, clo, rpc, dpc, reop, rmVars, scr, sinfo>>
 
 \* the backend makes the checkpoint of one dirty vb durable (one write per dirty vb, any order)
 StoreWrite(t, v) ==
@@ -519,7 +589,7 @@ StoreWrite(t, v) ==
   /\ sv' = [sv EXCEPT ![t].wr = @ \cup {v}]
   /\ Emit(<<[ev |-> "StoreWrite", t |-> t, vb |-> v, off |-> sv[t].dump[v]]>>)
   /\ UNCHANGED <<up, slog, fo, wire, info, cnt, obsvVars, strVars, synVars, mpc, dcwc, opener, opc, opened, live, foleft, lpart, clo,
-                 spc, rpc, dpc, reop, scr, sinfo>>
+                 spc, rpc, dpc, reop, rmVars, scr, sinfo>>
 
 Writable(t) == {v \in sv[t].ddirty : sv[t].dump[v] # NoOff}
 
@@ -569,7 +639,7 @@ CloseRet(v) ==
   /\ up /\ clo.on /\ v \in clo.left /\ Prompt
   /\ UNCHANGED <<up, slog, fo, wire, store, info, cnt, osnap, ouuid, ocatch, oclosed, ocnt, flag, rng, active, balancing, cwc,
                  finClose, finEnd, rebalances, stopped, ctxs, rlock, slock, cgen, dcwc, opener, opc, opened, live, foleft, lpart,
-                 spc, dpc, reop, scr, sinfo>>
+                 spc, dpc, reop, rmVars, scr, sinfo>>
   /\ IF clo.left = {v}
      THEN CloseTail(clo.who, <<>>)
      ELSE /\ clo' = [clo EXCEPT !.left = @ \ {v}]
@@ -611,19 +681,19 @@ MainCloseBegin(pre, cancel) ==
 \* Close() is called
 CloseCall ==
   /\ UNCHANGED wind
-  /\ up /\ mpc = "running" /\ ~Busy /\ EnvOK /\ AllowClose /\ ~stopped /\ ~clo.on /\ reop = {}
+  /\ up /\ mpc = "running" /\ ~Busy /\ EnvOK /\ AllowClose /\ ~rmon /\ ~stopped /\ ~clo.on /\ reop = {}
   /\ (GapReopen \/ opener # "timer")
   /\ dcwc' = TRUE
   /\ UNCHANGED <<slog, fo, wire, store, info, cnt, osnap, ouuid, ocatch, oendclosed, ocnt, offs, dirty, flag, rng, open, obsNil,
                  active, balancing, finClose, finEnd, rebalances, stopped, ctxs, tokC, tokE, waits, wpark, cur, rlock, slock,
-                 cgen, opener, opc, opened, live, foleft, lpart, rpc, dpc, reop, scr, sinfo>>
+                 cgen, opener, opc, opened, live, foleft, lpart, rpc, dpc, reop, rmVars, scr, sinfo>>
   /\ MainCloseBegin(<<[ev |-> "CloseCall"]>>, TRUE)
 
 \* the thread holds the save lock now: flag read; a saver whose flag is down returns (main: goes on with dcp.close)
 SaveAcq(t) ==
   /\ UNCHANGED <<slog, fo, wire, store, info, cnt, osnap, ouuid, ocatch, oendclosed, ocnt, offs, rng, open, obsNil, active,
                  balancing, finClose, finEnd, rebalances, stopped, ctxs, tokC, tokE, waits, wpark, cur, rlock, cgen,
-                 dcwc, opener, opc, opened, live, foleft, lpart, rpc, dpc, reop, scr, sinfo>>
+                 dcwc, opener, opc, opened, live, foleft, lpart, rpc, dpc, reop, rmVars, scr, sinfo>>
   /\ IF "F1" \notin Bugs /\ ~flag
      THEN /\ UNCHANGED <<slock, sv, dirty, flag>>
           /\ spc' = [spc EXCEPT ![t] = "idle"]
@@ -643,12 +713,12 @@ SaveLock(t) ==
           /\ "F1" \notin Bugs
           /\ spc' = [spc EXCEPT ![t] = "blocked"]
           /\ Emit(<<>>)
-          /\ UNCHANGED <<envVars, obsvVars, strVars, synVars, mpc, dcwc, opener, opc, opened, live, foleft, lpart, clo, sv, rpc, dpc, reop, scr, sinfo>>
+          /\ UNCHANGED <<envVars, obsvVars, strVars, synVars, mpc, dcwc, opener, opc, opened, live, foleft, lpart, clo, sv, rpc, dpc, reop, rmVars, scr, sinfo>>
 
 \* ... and gets the lock as soon as its holder releases it (not a step of the schedule: it happens by itself)
 SaveAcquire(t) ==
   /\ UNCHANGED wind
-  /\ up /\ spc[t] = "blocked" /\ sv[t].gen \notin slock /\ Prompt0
+  /\ up /\ spc[t] = "blocked" /\ sv[t].gen \notin slock /\ Prompt0 /\ ~GateReady
   /\ SaveAcq(t)
 
 \* metadata.Save returns, the rest of Save runs, Save returns
@@ -662,7 +732,7 @@ SaveRet(t, ok) ==
   /\ slock' = slock \ {sv[t].gen}
   /\ UNCHANGED <<slog, fo, wire, store, info, cnt, osnap, ouuid, ocatch, oendclosed, ocnt, offs, rng, open, obsNil, active,
                  balancing, finClose, finEnd, rebalances, stopped, ctxs, tokC, tokE, waits, wpark, cur, rlock, cgen,
-                 dcwc, opener, opc, opened, live, foleft, lpart, rpc, dpc, reop, scr, sinfo>>
+                 dcwc, opener, opc, opened, live, foleft, lpart, rpc, dpc, reop, rmVars, scr, sinfo>>
   /\ SaveRetBody(t, ok)
   /\ LET evs == <<[ev |-> "SaveEnd", t |-> t, ok |-> ok]>> \o SaveRetEvs(t) IN
      IF t = "main" THEN MainStreamClose(evs, dcwc)
@@ -704,7 +774,7 @@ Notify(t, i) ==
   /\ cnt' = [cnt EXCEPT !.notify = @ + 1]
   /\ UNCHANGED <<up, slog, fo, wire, store, obsvVars, offs, dirty, flag, rng, open, obsNil, active, cwc, finClose, finEnd,
                  rebalances, stopped, ctxs, tokC, tokE, waits, wpark, rlock, slock, cgen, mpc, dcwc, opener, opc, opened,
-                 live, foleft, lpart, clo, spc, sv, dpc, reop, scr, sinfo>>
+                 live, foleft, lpart, clo, spc, sv, dpc, reop, rmVars, scr, sinfo>>
   /\ RebalanceEnter(t, timers)
   /\ Emit(<<[ev |-> "Notify", src |-> t, member |-> i[1], total |-> i[2]]>>)
 
@@ -716,7 +786,7 @@ RbLock(t) ==
   /\ rlock' = TRUE
   /\ UNCHANGED <<up, slog, fo, wire, store, info, cnt, osnap, ouuid, ocatch, oendclosed, ocnt, flag, rng, active, finClose,
                  finEnd, rebalances, stopped, ctxs, slock, cgen, mpc, dcwc, opener, opc, opened, live, foleft, lpart, spc, sv, dpc,
-                 reop, scr, sinfo, offs, dirty, open, obsNil, tokC, tokE, waits, wpark>>
+                 reop, rmVars, scr, sinfo, offs, dirty, open, obsNil, tokC, tokE, waits, wpark>>
   /\ IF "F5" \in Bugs /\ balancing
      THEN \* l.295: already balancing: no Close, arm another re-open
           /\ rpc' = [rpc EXCEPT ![t] = "idle"]
@@ -739,7 +809,7 @@ CloseEmpty ==
   /\ up /\ clo.on /\ clo.left = {} /\ Prompt
   /\ UNCHANGED <<up, slog, fo, wire, store, info, cnt, osnap, ouuid, ocatch, oclosed, ocnt, flag, rng, active, balancing, cwc,
                  finClose, finEnd, rebalances, stopped, ctxs, rlock, slock, cgen, dcwc, opener, opc, opened, live, foleft, lpart,
-                 spc, dpc, reop, scr, sinfo>>
+                 spc, dpc, reop, rmVars, scr, sinfo>>
   /\ CloseTail(clo.who, <<>>)
 
 \* a timer fires
@@ -756,14 +826,14 @@ TimerFire(i) ==
           /\ Emit(<<CB("BeforeRebalanceEnd")>> \o OpenBeginEvs)
           /\ UNCHANGED <<up, slog, fo, wire, store, info, cnt, obsvVars, offs, dirty, flag, open, obsNil, balancing, cwc,
                          rebalances, stopped, ctxs, tokC, tokE, waits, wpark, cur, rlock, slock, mpc, dcwc, live, foleft, lpart,
-                         clo, spc, sv, rpc, dpc, reop, scr>>
+                         clo, spc, sv, rpc, dpc, reop, rmVars, scr>>
      ELSE \* stream.Rebalance on the timer goroutine (re-armed while a rebalance was in progress)
           /\ rpc["tmr"] = "idle"
           /\ RebalanceEnter("tmr", [timers EXCEPT ![i].st = "fired"])
           /\ Emit(<<>>)
           /\ UNCHANGED <<up, slog, fo, wire, store, info, cnt, obsvVars, offs, dirty, flag, rng, open, obsNil, active, cwc,
                          finClose, finEnd, rebalances, stopped, ctxs, tokC, tokE, waits, wpark, rlock, slock, cgen, mpc, dcwc,
-                         opener, opc, opened, live, foleft, lpart, clo, spc, sv, dpc, reop, scr, sinfo>>
+                         opener, opc, opened, live, foleft, lpart, clo, spc, sv, dpc, reop, rmVars, scr, sinfo>>
 
 -----------------------------------------------------------------------------
 (* stream ends (observer.End l.273-282, stream.listenEnd l.190-220)                                   *)
@@ -772,7 +842,7 @@ EndEv(v, c) == [ev |-> "EndSent", vb |-> v, cause |-> c]
 \* the server ends the stream of v with cause c ("closed" follows a CloseStream; "ok" is the clean end)
 End(v, c) ==
   /\ UNCHANGED wind
-  /\ UNCHANGED <<scr, sinfo>>
+  /\ UNCHANGED <<rmVars, scr, sinfo>>
   /\ up /\ ~Busy /\ v \in live /\ dpc[v] = "idle" /\ v \notin reop /\ wire[v] = <<>>
   /\ (c # "closed" => EnvOK /\ cnt.ends < MaxEnds /\ c \in EndCauses /\ open /\ ~clo.on /\ ~balancing /\ mpc = "running")
   /\ (c = "closed" => (clo.on /\ v \notin clo.left) \/ (obsNil /\ ~open))
@@ -783,7 +853,7 @@ End(v, c) ==
                  finEnd, rebalances, stopped, ctxs, timers, cur, rlock, slock, cgen, mpc, dcwc, opener, opc, opened, foleft, lpart,
                  clo, spc, sv, rpc, dpc>>
   /\ IF oendclosed[v] \/ obsNil
-     THEN /\ Emit(<<EndEv(v, c)>>) /\ UNCHANGED <<active, tokC, tokE, waits, wpark, reop, scr, sinfo>>
+     THEN /\ Emit(<<EndEv(v, c)>>) /\ UNCHANGED <<active, tokC, tokE, waits, wpark, reop, rmVars, scr, sinfo>>
      ELSE IF ~cwc /\ c \in TransientCauses
      THEN \* go reopenStream(vb): the goroutine reaches client.OpenStream with the current position
           /\ reop' = reop \cup {v}
@@ -799,7 +869,7 @@ End(v, c) ==
 \* the re-open request of v is answered
 ReopenRet(v, ok) ==
   /\ UNCHANGED wind
-  /\ UNCHANGED <<scr, sinfo>>
+  /\ UNCHANGED <<rmVars, scr, sinfo>>
   /\ up /\ v \in reop /\ ok /\ Prompt
   \* failing re-opens (1 s back-off, panic after 5) are explored by the C15 fault driver
   /\ reop' = reop \ {v}
@@ -816,13 +886,13 @@ RECURSIVE RemoveFirst(_, _)
 RemoveFirst(sq, k) == IF sq = <<>> THEN <<>> ELSE IF Head(sq) = k THEN Tail(sq) ELSE <<Head(sq)>> \o RemoveFirst(Tail(sq), k)
 WaitFin(k) ==
   /\ UNCHANGED wind
-  /\ up /\ k \in SeqToSet(wpark) /\ ~FocusBusy /\ ~LockHandoff
+  /\ up /\ k \in SeqToSet(wpark) /\ ~FocusBusy /\ ~LockHandoff /\ ~GateReady
   /\ wpark' = RemoveFirst(wpark, k)
   /\ finClose' = (IF k = "close" THEN TRUE ELSE finClose)
   /\ finEnd' = (IF k = "end" THEN TRUE ELSE finEnd)
   /\ UNCHANGED <<slog, fo, wire, store, info, cnt, osnap, ouuid, ocatch, oendclosed, ocnt, offs, dirty, flag, rng, open, obsNil,
                  active, balancing, rebalances, ctxs, tokC, tokE, waits, cur, rlock, slock, cgen, dcwc, opener, opc,
-                 opened, live, foleft, lpart, rpc, dpc, reop, scr, sinfo>>
+                 opened, live, foleft, lpart, rpc, dpc, reop, rmVars, scr, sinfo>>
   /\ IF balancing
      THEN /\ Emit(<<>>) /\ UNCHANGED <<up, mpc, stopped, spc, sv, cwc, oclosed, clo, timers>>
      ELSE IF stopped                                 \* close of a closed channel
@@ -840,7 +910,7 @@ Scrape ==
   /\ up /\ ~Busy /\ EnvOK /\ scr = "idle" /\ mpc \in {"running", "closed"} /\ cnt.saves + cnt.acks + cnt.notify < 99
   /\ IF obsNil THEN /\ Emit(<<[ev |-> "Scrape", closed |-> TRUE]>>) /\ UNCHANGED scr
      ELSE /\ scr' = "wait" /\ Emit(<<[ev |-> "SeqNosReq"]>>)
-  /\ UNCHANGED <<envVars, obsvVars, strVars, synVars, mpc, dcwc, opener, opc, opened, live, foleft, lpart, clo, spc, sv, rpc, dpc, reop, sinfo>>
+  /\ UNCHANGED <<envVars, obsvVars, strVars, synVars, mpc, dcwc, opener, opc, opened, live, foleft, lpart, clo, spc, sv, rpc, dpc, reop, sinfo, rmVars>>
 
 ScrapeVal(low) ==
   LET hi(v) == IF low THEN 0 ELSE HighOf(v)       \* (a stale answer: high seqnos below the tracked position)
@@ -857,7 +927,7 @@ ScrapeRet(low) ==
   /\ up /\ Prompt /\ scr = "wait"
   /\ scr' = "idle"
   /\ Emit(<<[SeqNosEvS(TRUE, TRUE) EXCEPT !.high = IF low THEN [v \in VB |-> 0] ELSE @], ScrapeVal(low)>>)
-  /\ UNCHANGED <<envVars, obsvVars, strVars, synVars, mpc, dcwc, opener, opc, opened, live, foleft, lpart, clo, spc, sv, rpc, dpc, reop, sinfo>>
+  /\ UNCHANGED <<envVars, obsvVars, strVars, synVars, mpc, dcwc, opener, opc, opened, live, foleft, lpart, clo, spc, sv, rpc, dpc, reop, sinfo, rmVars>>
 
 -----------------------------------------------------------------------------
 Crash ==
@@ -866,7 +936,7 @@ Crash ==
   /\ up' = FALSE /\ mpc' = "off" /\ cnt' = [cnt EXCEPT !.crash = @ + 1]
   /\ Emit(<<[ev |-> "Crash"]>>)
   /\ UNCHANGED <<slog, fo, wire, store, info, obsvVars, strVars, synVars, dcwc, opener, opc, opened, live, foleft, lpart, clo, spc, sv,
-                 rpc, dpc, reop, scr, sinfo>>
+                 rpc, dpc, reop, rmVars, scr, sinfo>>
 
 \* the bucket is flushed / recreated while the process is down: the history of v is gone, its checkpoint is not
 Flush(v) ==
@@ -903,7 +973,7 @@ Parked ==
 StartWind ==
   /\ up /\ Prompt /\ wind = "no" /\ Len(hist) >= WindAt /\ mpc \in {"running", "closed", "finalsave", "closing"}
   /\ wind' = "on" /\ Emit(<<>>)
-  /\ UNCHANGED <<envVars, obsvVars, strVars, synVars, mpc, dcwc, opener, opc, opened, live, foleft, lpart, clo, spc, sv, rpc, dpc, reop, scr, sinfo>>
+  /\ UNCHANGED <<envVars, obsvVars, strVars, synVars, mpc, dcwc, opener, opc, opened, live, foleft, lpart, clo, spc, sv, rpc, dpc, reop, rmVars, scr, sinfo>>
 
 \* nothing is parked anywhere, no timer is armed: the run is over; the monitors check the end-of-run obligations
 ArmedTimers == {i \in DOMAIN timers : timers[i].st = "armed"}
@@ -912,10 +982,10 @@ Quiesce ==
   /\ \A t \in SaveThreads : spc[t] = "idle"
   /\ (wind = "on" => mpc # "running")          \* a running client first does its flush save
   /\ wind' = "done" /\ Emit(<<[ev |-> "Quiesced"]>>)
-  /\ UNCHANGED <<envVars, obsvVars, strVars, synVars, mpc, dcwc, opener, opc, opened, live, foleft, lpart, clo, spc, sv, rpc, dpc, reop, scr, sinfo>>
+  /\ UNCHANGED <<envVars, obsvVars, strVars, synVars, mpc, dcwc, opener, opc, opened, live, foleft, lpart, clo, spc, sv, rpc, dpc, reop, rmVars, scr, sinfo>>
 
 -----------------------------------------------------------------------------
-Step(l) ==
+Step0(l) ==
   CASE l.a = "Boot"       -> Boot
     [] l.a = "LoadRet"    -> LoadRet(l.ok, l.part)
     [] l.a = "SeqNosRet"  -> SeqNosRet(l.ok)
@@ -941,16 +1011,24 @@ Step(l) ==
     [] l.a = "WaitFin"    -> WaitFin(l.k)
     [] l.a = "Crash"      -> Crash
     [] l.a = "Flush"      -> Flush(l.vb)
+    [] l.a = "GateOpen"   -> GateOpen(l.vb)
+    [] l.a = "Report"     -> Report(l.vb, l.slot, l.uuid, l.seq)
+    [] l.a = "Absent"     -> Absent(l.vb, l.slot)
+    [] l.a = "RmSwitch"   -> RmSwitch(l.on)
     [] l.a = "Scrape"     -> Scrape
     [] l.a = "ScrapeRet"  -> ScrapeRet(l.low)
     [] l.a = "StartWind"  -> StartWind
     [] l.a = "Quiesce"    -> Quiesce
+\* a callback whose wait at the rollback-mitigation gate is over goes on before anything else happens
+Step(l) == (GateReady => l.a \in {"GateOpen", "Crash"}) /\ Step0(l)
 
 MaxCtx == 6
 MaxTimers == 4
 Life == MaxNotify > 0 \/ MaxEnds > 0 \/ AllowClose
 Labels ==
   [a : {"Boot", "StartWind", "Quiesce"}]
+  \cup (IF RM THEN [a : {"GateOpen"}, vb : VB] \cup [a : {"RmSwitch"}, on : BOOLEAN] \cup [a : {"Absent"}, vb : VB, slot : 2..Slots]
+                   \cup [a : {"Report"}, vb : VB, slot : 1..Slots, uuid : RmUuids, seq : 0..MaxSeq] ELSE {})
   \cup (IF Scrapes THEN [a : {"Scrape"}] \cup [a : {"ScrapeRet"}, low : BOOLEAN] ELSE {})
   \cup (IF MaxCrash > 0 THEN [a : {"Crash"}] ELSE {})
   \cup (IF MaxCrash > 0 /\ MaxFail > 0 THEN [a : {"Flush"}, vb : VB] ELSE {})
@@ -974,12 +1052,12 @@ Labels ==
   \cup (IF MaxEnds > 0 THEN [a : {"ReopenRet"}, vb : VB, ok : {TRUE}] ELSE {})
 
 \* API-visible state, sampled after every step while the process is up (Stream.GetOffsets, IsOpen)
-StateEvs == IF up' THEN <<[ev |-> "State", offsets |-> offs', open |-> open', active |-> active']>> ELSE <<>>
+StateEvs == IF up' THEN <<[ev |-> "State", offsets |-> offs', open |-> open', active |-> active', thr |-> thr']>> ELSE <<>>
 
 \* projection of the implementation state that the driver compares after every step
 Post == [offsets |-> offs, dirty |-> SortedSeq(dirty), flag |-> flag, store |-> store, open |-> open,
          parked |-> IF up THEN Parked ELSE {}, up |-> up, active |-> active, rebalances |-> rebalances,
-         stopped |-> stopped]
+         stopped |-> stopped, thr |-> thr]
 
 \* the label carries the event for Push: the environment's choice
 PushLabels == {[a |-> "Push", vb |-> v, x |-> x, hold |-> h] : v \in live, x \in UNION {NextEvents(w) : w \in live},
@@ -993,6 +1071,17 @@ NewMarks(l) ==
       armed == cur > 0 /\ timers[cur].st = "armed"
   IN
   (IF a = "Notify" /\ opener = "timer" THEN {"notifyDuringReopen"} ELSE {})
+  \cup (IF a = "GateOpen" /\ ~oclosed[l.vb] /\ IsDoc(dwait[l.vb]) /\ ~dwait[l.vb].old /\ ~Reserved(dwait[l.vb]) THEN {"gatePassDoc"} ELSE {})
+  \cup (IF a = "GateOpen" /\ ~oclosed[l.vb] /\ dwait[l.vb].k \in {"adv", "sys"} THEN {"gatePassNonDoc"} ELSE {})
+  \cup (IF a = "GateOpen" /\ ~oclosed[l.vb] /\ dwait[l.vb].k = "mark" /\ dwait[l.vb].s > 0 THEN {"gatePassMarker"} ELSE {})
+  \cup (IF a = "GateOpen" /\ oclosed[l.vb] /\ IsDoc(dwait[l.vb]) THEN {"gateCloseRelease"} ELSE {})
+  \cup (IF a = "GateOpen" /\ ~oclosed[l.vb] /\ IsDoc(dwait[l.vb]) /\ "rmMismatch" \in marks THEN {"gatePassAfterMismatch"} ELSE {})
+  \cup (IF a = "GateOpen" /\ ~oclosed[l.vb] /\ IsDoc(dwait[l.vb]) /\ \E i \in 1..Slots : rtab[l.vb][i].absent THEN {"gatePassAbsent"} ELSE {})
+  \cup (IF a = "Report" /\ dwait[l.vb] # NoEvent /\ \E i \in 1..Slots : i # l.slot /\ rtab[l.vb][i].uuid \notin {0, l.uuid}
+            /\ rtab[l.vb][i].seq >= GateSeq(dwait[l.vb]) /\ l.seq >= GateSeq(dwait[l.vb]) THEN {"rmMismatch"} ELSE {})
+  \cup (IF a = "Report" /\ dwait[l.vb] # NoEvent /\ l.seq < rtab[l.vb][l.slot].seq THEN {"rmDecrease"} ELSE {})
+  \cup (IF a = "GateOpen" /\ ~oclosed[l.vb] /\ IsDoc(dwait[l.vb]) /\ "rmDecrease" \in marks THEN {"gatePassAfterDecrease"} ELSE {})
+  \cup (IF a = "SaveStart" /\ \E v \in VB : dwait[v] # NoEvent /\ dwait[v].k \in {"adv", "sys"} THEN {"saveWhileNonDocWaits"} ELSE {})
   \cup (IF a = "Notify" /\ clo.on THEN {"notifyDuringClose"} ELSE {})
   \cup (IF a = "Notify" /\ balancing /\ armed /\ ~clo.on /\ opc = "none" THEN {"notifyDuringDelay"} ELSE {})
   \cup (IF a = "Notify" /\ l.t = "api" /\ rpc["bus"] = "want" THEN {"apiWhileBusWaits"} ELSE {})
@@ -1063,6 +1152,7 @@ C12 == NoViol(obs, "C12")
 C13 == NoViol(obs, "C13")
 C14 == NoViol(obs, "C14")
 C15 == NoViol(obs, "C15")
+C07 == NoViol(obs, "C07")
 C16 == NoViol(obs, "C16")
 \* the monitor's view of the store is the store
 StoreAgrees == obs.store = store
